@@ -723,7 +723,10 @@ class Pipeline:
         cfg = config if config is not None else self.default_config(st)
         cfg_ref = I.halloc(st, cfg)
         outs = []
-        I.run(parse, [I.halloc(st, Opaque('wasm-bytes')), cfg_ref], st, lambda s, v: outs.append((s, v)))
+        try:
+            I.run(parse, [I.halloc(st, Opaque('wasm-bytes')), cfg_ref], st, lambda s, v: outs.append((s, v)))
+        except BudgetExhausted:
+            pass
         return outs
 
     def default_config(self, st, **flags):
@@ -743,7 +746,10 @@ class Pipeline:
         if mref is None:
             mref = I.halloc(st, module)
         outs = []
-        I.run(emit, [mref], st, lambda s, v: outs.append((s, v, mref)))
+        try:
+            I.run(emit, [mref], st, lambda s, v: outs.append((s, v, mref)))
+        except BudgetExhausted:
+            pass          # the paths completed so far are genuine paths; engine.TRUNCATED marks the scenario
         return outs
 
 
@@ -861,7 +867,10 @@ def run_gc(pl, st, mref):
     I = pl.I
     gc = pl.ctx.fn(r'^passes::gc::run$|^gc::run$')
     outs = []
-    I.run(gc, [mref], st, lambda s, v: outs.append((s, v)))
+    try:
+        I.run(gc, [mref], st, lambda s, v: outs.append((s, v)))
+    except BudgetExhausted:
+        pass
     return outs
 
 
